@@ -295,6 +295,17 @@ class T3Tag(TagSim):
             blks.append((e & 0x0F, num))
         return svcs, blks, d[p:]
 
+    def refuse(self, cmd):
+        """the tag refuses a Read / Write command: nothing is executed, the
+        response carries status flags (FFh, 70h memory error); any other
+        command is served normally"""
+        c = bytes(cmd)
+        if len(c) >= 10 and c[0] == len(c) and c[1] in (0x06, 0x08) and \
+                c[2:10] == self.idm and not self.dead:
+            self.ncmd += 1
+            return self._rsp(c[1] + 1, b"\xFF\x70")
+        return self.command(cmd)
+
     def command(self, cmd, timeout=None):
         self.ncmd += 1
         cmd = bytes(cmd)
